@@ -297,16 +297,13 @@ fn enumerate_cuts(ctx: &mut Ctx, scenarios: usize) {
 }
 
 pub fn run(ctx: &mut Ctx) {
-    ctx.rule("E2E: generated transfer scenarios (writes interleaved with flush, ending in shutdown / flush / drop / nothing; readers read until end-of-stream or error; loss-free or fair-lossy) with one fault: the network is cut from a generated emission index on (placed on the fault-free wire log of the same scenario), or a socket's cancellation token fires at a generated instant. Oracle: every flush/shutdown that returned Ok after m bytes => the peer application obtains >= m bytes; clean end-of-stream never with fewer bytes than a successful shutdown covered; after an abort with data outstanding (or a cancel) the writer's operations resolve within inactivity + 75 s (1 s for cancel) and nothing is accepted later. Thorough: all cut indices of 200 base scenarios are enumerated (fault_enumeration). non-trivial = fault while data was unacknowledged, or a FIN lost; distinct by hash of wire-log shape and read outcome");
+    ctx.rule("E2E: generated transfer scenarios (writes interleaved with flush, ending in shutdown / flush / drop / nothing; readers read until end-of-stream or error; loss-free or fair-lossy) with one fault: the network is cut from a generated emission index on (placed on the fault-free wire log of the same scenario), or a socket's cancellation token fires at a generated instant. Oracle: every flush/shutdown that returned Ok after m bytes => the peer application obtains >= m bytes; clean end-of-stream never with fewer bytes than a successful shutdown covered; after an abort with data outstanding (or a cancel) the writer's operations resolve within inactivity + 75 s (1 s for cancel) and nothing is accepted later. All cut indices of 24 (quick) / 400 (thorough) base scenarios are enumerated (fault_enumeration). non-trivial = fault while data was unacknowledged, or a FIN lost; distinct by hash of wire-log shape and read outcome");
     ctx.assume("in-flight datagrams emitted before the cut are still delivered; 'keeps reading' = ReadToEnd scripts");
     ctx.replay_corpus::<E2e>();
     ctx.run_generated::<E2e>(ctx.tier.pick(20_000, 600_000));
-    if ctx.tier == Tier::Thorough {
-        ctx.set_level("fault_enumeration");
-        enumerate_cuts(ctx, 200);
-    } else {
-        enumerate_cuts(ctx, 6);
-    }
+    // every cut position of the base scenarios is enumerated in both tiers (fewer scenarios in the quick one)
+    ctx.set_level("fault_enumeration");
+    enumerate_cuts(ctx, ctx.tier.pick(24, 400));
 }
 
 pub fn replay(v: &Value) -> Option<i32> {
